@@ -410,7 +410,7 @@ def _arraybase_units():
                                     now = p.st.cell(ref).fields.get("_array")
                                     okr = isinstance(now, VRef) and isinstance(p.st.cell(now), HArr)
                                     goal = z3.BoolVal(False)
-                                    if okr:
+                                    if okr and len(p.st.cell(now).shape) == 2 and len(p.st.cell(p.ex.given).shape) == 2:
                                         nc, gv = p.st.cell(now), p.st.cell(p.ex.given)
                                         g = p.ex.generic
                                         goal = z3.And(zb(arrays.dtype_eq(p.ex, nc.dtype, gv.dtype)), to_real(nc.elem(g)) == to_real(p.ex.given_elem(g)))
